@@ -437,6 +437,12 @@ def fix_unused_and_missing_imports(
         # block with the longest common prefix.  Tie-break by preferring later
         # blocks.
         added_imports = set()
+        # The import must precede the first use of the name, whichever of
+        # its dotted identifiers sorts first.
+        first_use = {}
+        for lineno, ident in missing_imports:
+            name = ident.parts[0]
+            first_use[name] = min(lineno, first_use.get(name, lineno))
         for lineno, ident in missing_imports:
             import_as = ident.parts[0]
             try:
@@ -453,7 +459,7 @@ def fix_unused_and_missing_imports(
             imp_to_add = imports[0]
             if imp_to_add in added_imports:
                 continue
-            transformer.add_import(imp_to_add, lineno)
+            transformer.add_import(imp_to_add, first_use[import_as])
             added_imports.add(imp_to_add)
             logger.info("%s: added %r", filename,
                         imp_to_add.pretty_print().strip())
